@@ -33,8 +33,11 @@ for w in "$@"; do
   case "$out" in panic:*) rc=1;; outcome:*) ;; *) rc=1;; esac
 done
 if [ "$crate" != "-" ]; then
-  (cd "$S/repo" && CARGO_NET_OFFLINE=true CARGO_TARGET_DIR="$S/target-test" cargo test --offline -p "$crate" 2>&1 | grep -E "^test result|FAILED|failed|error(\[|:)" | sort | uniq -c | head -20)
-  [ "${PIPESTATUS[0]}" = 0 ] || true
+  # one crate or a quoted, space-separated list of crates
+  for c in $crate; do
+    echo "--- cargo test -p $c"
+    (cd "$S/repo" && CARGO_NET_OFFLINE=true CARGO_TARGET_DIR="$S/target-test" cargo test --offline -p "$c" 2>&1 | grep -E "^test result|FAILED|failed|error(\[|:)" | sort | uniq -c | head -20)
+  done
 fi
 git -C /repo worktree remove --force "$S/repo" 2>/dev/null
 exit $rc
